@@ -116,6 +116,11 @@ def gen_c14(rnd, n, thorough=False):
             lines.append('dec %s %s' % (kind, hx(enc[:k])))
         trailer = bytes(rnd.getrandbits(8) for _ in range(rnd.pick([0, 1, 3, 8, 20])))
         lines.append('dec %s %s' % (kind, hx(enc + trailer)))
+        if kind == 'header':
+            # the same header with another max-retention word (a file another tool resized): a header value like
+            # any other -- decoding and encoding it again gives these bytes
+            stale = enc[:4] + be32(rnd.pick([0, 1, 7200, 2 ** 31 - 1, 2 ** 32 - 1, rnd.getrandbits(32)])) + enc[8:]
+            lines.append('dec header %s' % hx(stale + trailer))
         # a second message right behind the first one
         kind2, line2, enc2 = gen_object(rnd)
         lines.append(line2)
